@@ -3,6 +3,9 @@ import EaselModel.Sqio.DriverLogic
 import EaselModel.Sqio.Totality
 import EaselModel.Sqio.BlockSpec
 import EaselModel.Sqio.WindowSpec
+import EaselModel.Sqio.WindowTotal
+import EaselModel.Sqio.EmblTotal
+import EaselModel.Sqio.EmblTotalAll
 /-! # C02 — sequence-file input is total: any bytes give a normal outcome
 
 Property theorems only (proofs are glue on `Sqio/Refine.lean`, `Sqio/NoFault.lean`).
@@ -19,10 +22,11 @@ leaves the buffer and rejects every byte ≥ 0x80 before it is used as an index 
 `seebuf` and the digital `addbuf` use classify every symbol consistently (`inmaps_agree`, re-checked against the regenerated
 tables on every run); and, composed through `header_fasta` / `seebuf` / `addbuf` / `end_fasta`: `sqascii_Read`, `ReadInfo`, `ReadSequence` and the
 whole-sequence `ReadBlock` are total for EVERY byte string (`read_total`, `readInfo_total`, `readSequence_total`, `read_all_total`,
-`readBlock_total`): status `eslOK` / `eslEOF` / `eslEFORMAT` (with a message), never `fault`, every record well formed. `read_nres` /
-`ReadWindow` are total on records whose data is clean (`read_nres_total`); NOT proved (tied by the differential run + sanitizer build +
-record monitor): `read_nres` / `ReadWindow` on data holding an illegal byte, the line-based formats, the guessers and the
-alignment-as-sequences branch. -/
+`readBlock_total`): status `eslOK` / `eslEOF` / `eslEFORMAT` (with a message), never `fault`, every record well formed; `read_nres` and
+the forward `ReadWindow` are total for EVERY byte string too — illegal bytes included — (`read_nres_total_any`, `readWindow_total`):
+`eslOK` / `eslEOD` / `eslEOF` / `eslEFORMAT` with a message, no exception, never `fault`. NOT proved (tied by the differential run +
+sanitizer build + record monitor): reverse-strand windows on malformed data, long-target `ReadBlock`, daemon / hmmpgmd, the guessers and
+the alignment-as-sequences branch. EMBL / UniProt / GenBank / DDBJ: `sqascii_Read` is total for every byte string (`read_linebased_total`). -/
 namespace EaselModel.Props.C02
 open EaselModel.Sqio EaselModel.Sqio.Refine EaselModel.Sqio.NoFault
 
@@ -141,5 +145,71 @@ theorem read_nres_total (a : Ascii) (sq : Sq) (W : Nat) (hW : 1 ≤ W) (w : Refi
   split
   · exact Or.inr rfl
   · exact Or.inl rfl
+
+
+open EaselModel.Sqio.BodySpec EaselModel.Sqio.Cursor in
+/-- **`read_nres(sqfp, sq, 0, W)` is total for EVERY byte string, every block size, every `W`**: whatever bytes follow the cursor —
+    illegal symbols, bytes ≥ 0x80, a truncated record — the status is `eslOK`, `eslEOD` or `eslEFORMAT` (then a message was written),
+    never `fault` (no access outside the buffer, no store outside the `W` residues of room), no exception; the handle stays well formed;
+    at most `W` residues are appended and nothing else of the `ESL_SQ` changes. -/
+theorem read_nres_total_any (a : Ascii) (sq : Sq) (W : Nat) (w : Refine.WF a) (tok : Fold.Track.Ok a.trk) (hm : a.inmap.size = 128)
+    (hmap : MapOk a.inmap (mapOf a sq)) (hcap : sq.seq.size + W + (if sq.digital then 2 else 1) ≤ sq.salloc) :
+    ((readNres a sq 0 W).2.2.1 = .ok ∨ (readNres a sq 0 W).2.2.1 = .eod ∨ (readNres a sq 0 W).2.2.1 = .eformat) ∧
+    ((readNres a sq 0 W).2.2.1 = .eformat → (readNres a sq 0 W).1.haveErr = true) ∧
+    Refine.WF (readNres a sq 0 W).1 ∧ stat (readNres a sq 0 W).1 = stat a ∧ (readNres a sq 0 W).1.exc = a.exc ∧
+    (∃ d : Bytes, (readNres a sq 0 W).2.1 = { sq with seq := sq.seq ++ d } ∧ d.size ≤ W) ∧ (readNres a sq 0 W).2.2.2 ≤ W := by
+  obtain ⟨t1, t2, _, t4, t5, t6, _, _, _, t10, _, t12⟩ := WindowTotal.readNres_zero_total a sq W w tok hm hmap hcap
+  exact ⟨t1, t2, t4, t5, t6, t10, t12⟩
+
+open EaselModel.Sqio.BodySpec EaselModel.Sqio.ReadSpec EaselModel.Sqio.WindowSeries in
+/-- **forward `sqascii_ReadWindow` is total for EVERY byte string and every block size**: the first call on a record (from a ready handle,
+    `ESL_SQ` as after `esl_sq_Reuse`) and every later call (`sq->start ≠ 0`, whatever residues the window holds) return `eslOK`,
+    `eslEOD`, `eslEOF` or `eslEFORMAT` — the latter with a message —, raise no exception and never fault, for every context `C ≥ 0` and
+    width `W ≥ 1`. -/
+theorem readWindow_total (a : Ascii) (sq : Sq) (C W : Int) (hC : 0 ≤ C) (hW : 1 ≤ W)
+    (h : (sq.start = 0 ∧ sq.seq = #[] ∧ Ready a sq) ∨ (sq.start ≠ 0 ∧ HOk a ∧ MapOk a.inmap (mapOf a sq))) :
+    ((readWindow a sq C W).2.2 = .ok ∨ (readWindow a sq C W).2.2 = .eod ∨ (readWindow a sq C W).2.2 = .eof ∨
+      (readWindow a sq C W).2.2 = .eformat) ∧
+    ((readWindow a sq C W).2.2 = .eformat → (readWindow a sq C W).1.haveErr = true) ∧ (readWindow a sq C W).1.exc = a.exc :=
+  WindowTotal.readWindow_fwd_total a sq C W hC hW h
+
+open EaselModel.Sqio.ParseFasta in
+/-- non-vacuity on the executable model: `>a\nAC1GT\n` (`1` is illegal), B = 2: a window of 3 residues reports `eslEFORMAT` with a
+    message and no exception; a window of 2 succeeds with `AC` -/
+example :
+    (readWindow (openFasta #[62, 97, 10, 65, 67, 49, 71, 84, 10] 2 0) (freshSq 0).reuse 0 3).2.2 = Status.eformat ∧
+    (readWindow (openFasta #[62, 97, 10, 65, 67, 49, 71, 84, 10] 2 0) (freshSq 0).reuse 0 3).1.haveErr = true ∧
+    (readWindow (openFasta #[62, 97, 10, 65, 67, 49, 71, 84, 10] 2 0) (freshSq 0).reuse 0 2).2.2 = Status.ok ∧
+    (readWindow (openFasta #[62, 97, 10, 65, 67, 49, 71, 84, 10] 2 0) (freshSq 0).reuse 0 2).2.1.seq = #[65, 67] := by
+  decide +kernel
+
+
+open EaselModel.Sqio.BodySpec EaselModel.Sqio.LineSpec EaselModel.Sqio.EmblAll in
+/-- **`sqascii_Read` on the line-based formats (EMBL / UniProt / GenBank / DDBJ) is total for EVERY byte string and every block size**: from
+    any line-mode handle (`LWF`: what `esl_sqfile_Open` yields and every call preserves) the outcome is `eslOK`, `eslEOF` or `eslEFORMAT`
+    — the latter with a message —, no exception, never `fault`: `skipLinesWhile` / `emblScan` / `genbankScan` never run away (every
+    iteration consumes a line of the file), `strtok` / the `LOCUS` / `VERSION` / `DEFINITION` column accesses stay inside the line (the
+    742bef8 guards), the residue loop reads only `line[0..nc)` and stores inside the allocation `esl_sq_GrowTo` made, `end_embl` looks at
+    the line start only; the handle stays a line-mode handle on the same file. No hypothesis on the bytes, on `B`, or on the `ESL_SQ`'s
+    allocations. -/
+theorem read_linebased_total (a : Ascii) (sq : Sq) (w : LWF a) (hf : LineFmt a) (tok : Fold.Track.Ok a.trk) (hm : a.inmap.size = 128)
+    (hmap : MapOk a.inmap (mapOf a sq)) :
+    ((read a sq).2.2 = .ok ∨ (read a sq).2.2 = .eof ∨ (read a sq).2.2 = .eformat) ∧
+    ((read a sq).2.2 = .eformat → (read a sq).1.haveErr = true) ∧ (read a sq).1.exc = a.exc ∧ LWF (read a sq).1 ∧
+    (read a sq).1.fmt = a.fmt ∧ (read a sq).1.file = a.file ∧ (read a sq).1.inmap = a.inmap :=
+  EmblTotal.read_linebased_total a sq w hf tok hm hmap
+
+
+open EaselModel.Sqio.BodySpec EaselModel.Sqio.EmblAll in
+/-- **The whole reader of the line-based formats is total, for EVERY byte string and EVERY block size `B ≥ 1`**: from `esl_sqfile_Open` on
+    (`openLine` = the handle open yields for EMBL / UniProt / GenBank / DDBJ), reading records with `sqascii_Read` until the first
+    non-`eslOK` status ends within `size + 2` calls with `eslEOF` or `eslEFORMAT` — never `fault`; every successful call consumes at least
+    one line of the file. -/
+theorem read_all_linebased_total (file : Bytes) (B abc fmt : Nat) (eofOk : Bool) (inmap0 inmap1 : Bytes) (hB : 1 ≤ B)
+    (hf : fmt = 2 ∨ fmt = 3 ∨ fmt = 4 ∨ fmt = 5) (hm : inmap1.size = 128) (sq : Sq)
+    (hmap : MapOk inmap1 (if sq.digital then abcInmap sq.abc else inmap1)) :
+    (ParseFasta.readAllM (file.size + 2) (openLine file B abc fmt eofOk inmap0 inmap1) sq).2 = .eof ∨
+    (ParseFasta.readAllM (file.size + 2) (openLine file B abc fmt eofOk inmap0 inmap1) sq).2 = .eformat :=
+  EmblTotalAll.read_all_linebased_open_total file B abc fmt eofOk inmap0 inmap1 hB hf hm sq hmap
 
 end EaselModel.Props.C02
